@@ -1149,6 +1149,7 @@ impl Check for C14Check {
             stats.inc("probe.server_selected_other_encoding");
         }
         let mut lib_known = false;
+        let mut lib_session: Option<Session> = None;
         let mut lib_hist_seen: Vec<u64> = vec![];
         let _ = std::fs::remove_file(path_of(LIB_DOC));
         if primary.server_requests.is_empty() {
@@ -1340,7 +1341,13 @@ impl Check for C14Check {
                         }
                     };
                     lib_known = content.is_some();
-                    guard("didChangeWatchedFiles", || rt.block_on(primary.notify("workspace/didChangeWatchedFiles", json!({"changes": [{"uri": luri, "type": ty}]}))))?;
+                    // a server of its own: a project-wide lint or a duplicate name caused by this file must not leak into
+                    // what the editor documents' server answers (cross-file freshness of pushed diagnostics is not C14's subject)
+                    if lib_session.is_none() {
+                        lib_session = Some(guard("initialize", || rt.block_on(Session::start(pull)))?);
+                    }
+                    let Some(lib_primary) = lib_session.as_mut() else { continue };
+                    guard("didChangeWatchedFiles", || rt.block_on(lib_primary.notify("workspace/didChangeWatchedFiles", json!({"changes": [{"uri": luri, "type": ty}]}))))?;
                     stats.inc("notifications");
                     stats.inc("fault.watched_file_event_for_closed_file");
                     stats.log(&format!("{opi}:lib:{variant}"));
@@ -1350,7 +1357,7 @@ impl Check for C14Check {
                     }
                     let td = json!({"textDocument": {"uri": luri}});
                     for method in ["textDocument/documentSymbol", "textDocument/diagnostic", "textDocument/foldingRange"] {
-                        let mut a = guard(method, || rt.block_on(primary.request(method, td.clone())))?;
+                        let mut a = guard(method, || rt.block_on(lib_primary.request(method, td.clone())))?;
                         let mut b = guard(method, || rt.block_on(twin.request(method, td.clone())))?;
                         // the result id is a per-server counter, not an answer about the text
                         for j in [&mut a, &mut b] {
